@@ -33,6 +33,7 @@ type Obligation struct {
 	Enc     *Enc
 	Pos     string
 	Extra   []string // extra assertions (local hypotheses)
+	Cases   []string // path case split: each case guard is asserted in turn when the undivided query fails
 	Expect  string   // "" (must prove) | "fail" (self-test: must not prove)
 	Concrete bool
 }
